@@ -52,9 +52,10 @@ reg("C20", harness="c20_zero", level="exploration", deadline=(120, 900),
                "(thorough 0..1100), 65 placements, every position of a single non-zero byte with 3 (thorough: up to 255) values; the region is "
                "flush against inaccessible pages so an out-of-range read faults, and neighbours are non-zero. Dense families on the same "
                "(variant, length, placement) grid: zeros + non-zero suffix, non-zero prefix + zeros, sliding 64- and 128-byte non-zero windows, "
-               "every start, fill ff/01/80 (every byte lane of a vector block non-zero at once).",
-    level_note="lengths beyond N and multi-byte patterns other than runs (suffix/prefix/window) are not enumerated",
-    runs=[dict(flavour="sim")],
+               "every start, fill ff/01/80 (every byte lane of a vector block non-zero at once). Huge part: regions of 2^32-1 .. 2^32+16 MiB bytes "
+               "(zero-page-backed mapping), all-zero and single non-zero bytes at the end / just beyond 4 GiB / in the middle, per variant.",
+    level_note="lengths between N and 2^32-1 and multi-byte patterns other than runs (suffix/prefix/window) are not enumerated",
+    runs=[dict(flavour="sim", part="sweep"), dict(flavour="sim", part="huge")],
     rule="case = (implementation, len, placement); for each: all-zero must give 0, a single non-zero byte at EVERY offset with each value "
          "and every member of the dense run families must give non-zero, with no access outside the region; distinct_nontrivial counts distinct (implementation, len) pairs completed; evaluations counts calls.")
 
